@@ -32,6 +32,8 @@ WITNESSES = ['percent_spelling_is_gin_macro', 'method_names_resolve_back', 'unkn
 POOL_Q = ['b', 'a.b', 'c.a.b', 'c.b', 'a.a', 'b.a', 'a.c.b', 'c', 'a.B']
 POOL_T = POOL_Q + ['a', 'b.a.b', 'a.b.a', 'c.c.b', 'b.c', 'b.b', 'B', 'A.b', '_x1.b']
 INVALID = ['', 'a..b', '.a', 'a.', '1a', 'a b', 'a/b']
+# names whose OUTER component is the invalid one (the inner components are names that are, or could be, stored)
+INVALID_OUTER = ['1x.a.b', 'x-y.b', '9.c.a.b', 'a b.a']
 
 
 def bound(tier):
@@ -143,6 +145,8 @@ def ops_for(objs, pool):
       out.append(('pop', i, n))
     out.append(('clear', i))
     out.append(('bad', i, INVALID[(len(objs[i]) + i) % len(INVALID)]))
+    for bad in INVALID_OUTER:
+      out.append(('bad', i, bad))
   if len(objs) < 2:
     out.append(('copy', 0, 'copy'))
     out.append(('copy', 0, '__copy__'))
